@@ -22,6 +22,7 @@ META = {
         "C06.P2 inbound routing: system bytes registered => that requester's queue, else message_received; HSMS and SECS-I agree",
         "C06.W1 one consumer of the dispatch queue across reconnects; FIFO; one item at a time; a raising handler does not end the consumer; no lost wake-up",
         "C06.X1 a reply is routed before any transition that can raise (shared with C05.P3)",
+        "C06.S1 HSMS frames are cut from the byte stream exactly: complete before consumed, cursor on the next frame, no buffered frame left behind (shared with C04.P1)",
     ],
     "does_not_decide": ["fairness and latency", "dict-level races on the response-queue map beyond the counter lock", "actual thread interleavings (the rules are lockset/ordering disciplines)"],
     "assumptions": ["queue.Queue is a thread-safe FIFO (stdlib)", "threading.Lock provides mutual exclusion (stdlib)"],
@@ -368,3 +369,9 @@ def run(ctx):
     check_routing(ctx)
     check_dispatcher(ctx, "C06.W1")
     check_x1(ctx)
+    # a reply or an inbound message is handed on once only if its frame is cut from the byte stream exactly: complete
+    # before it is consumed, the cursor on the next frame, no frame left behind (shared with C04.P1)
+    from .. import report
+    from .c04 import check_framing
+
+    report.share(ctx, "C06.S1", check_framing)
